@@ -1,6 +1,7 @@
 import OasisModel.Handlers.Deliver
 import OasisModel.Handlers.Flow
 import Generated.HandlerFacts
+import OasisModel.Handlers.FlowFacts
 import OasisProofs.Props.C08Sound
 /-
 C08 — a failed transaction changes nothing but fee and nonce.
@@ -162,53 +163,45 @@ roothash.executorCommit / slashing / liveness, vault.executeAction/authorizeActi
 staking.changeParameters: see the per-site comments in `expected`.
 -/
 def expected : List (String × List String) := [
-  -- authentication: every check (reserved address, nonce, balance ≥ fee + minimum) precedes the
-  -- single write (fee move + nonce increment + SetAccount): "rejected at authentication changes nothing"
   ("staking_state_AuthenticateAndPayFees", []),
   ("staking_PostExecuteTx", []),
   ("staking_ExecuteTx", []),
-  ("registry_ExecuteTx",
-    ["transactions.go:registerNode:registry.ErrInvalidArgument",
-     "transactions.go:registerNode:fmt.Errorf(unknown runtime governance model on runtime %s: )",
+  ("registry_ExecuteTx", ["transactions.go:registerNode:registry.ErrInvalidArgument @ existingNode != nil",
+     "transactions.go:registerNode:fmt.Errorf(unknown runtime governance model on runtime %s: ) @ !ok",
      "transactions.go:registerNode:err"]),
-  ("governance_ExecuteTx",
-    ["transactions.go:submitProposal:err",
-     "transactions.go:submitProposal:governance.ErrInvalidArgument",
+  ("governance_ExecuteTx", ["transactions.go:submitProposal:err @ case proposalContent.ChangeParameters != nil",
+     "transactions.go:submitProposal:governance.ErrInvalidArgument @ res == nil",
      "transactions.go:submitProposal:fmt.Errorf(governance: failed to get next proposal identifi)"]),
-  ("roothash_ExecuteTx",
-    -- executorCommit runs inside NewTransaction; evidence handling slashes through wrappers that
-    -- the extractor cannot bind to the overlay (constructed in callees from the tx context): the
-    -- sites below are reads of registered nodes / arithmetic on non-zero divisors after SlashEscrow.
-    ["transactions.go:executorCommit:err",
+  ("roothash_ExecuteTx", ["transactions.go:executorCommit:err",
      "slashing.go:onEvidenceRuntimeEquivocation:fmt.Errorf(cometbft/roothash: failed to get node by id %s: )",
      "slashing.go:onEvidenceRuntimeEquivocation:fmt.Errorf(cometbft/roothash: failed to lookup node: %w)",
      "slashing.go:distributeSlashedFunds:fmt.Errorf(cometbft/roothash: runtimeAccReward.Mul: %w)",
      "slashing.go:distributeSlashedFunds:fmt.Errorf(cometbft/roothash: runtimeAccReward.Quo(100): %w)",
      "slashing.go:distributeSlashedFunds:fmt.Errorf(cometbft/roothash: remainingReward.Sub(runtimeAc)",
      "slashing.go:distributeSlashedFunds:fmt.Errorf(cometbft/roothash: remainingReward.Quo(len(discr)"]),
-  ("vault_ExecuteTx",
-    ["transactions.go:authorizeAction:err",
-     "action.go:executeAction:err",
-     "action.go:executeAction:vault.ErrUnsupportedAction"]),
+  ("vault_ExecuteTx", ["transactions.go:authorizeAction:err @ case api.IsUnavailableStateError(err)",
+     "action.go:executeAction:err @ case action.UpdateWithdrawPolicy != nil",
+     "action.go:executeAction:err @ case action.UpdateAuthority != nil",
+     "action.go:executeAction:err @ case action.ExecuteMessage != nil",
+     "action.go:executeAction:vault.ErrUnsupportedAction @ default"]),
   ("beacon_Application_ExecuteTx", []),
   ("beacon_backendVRF_ExecuteTx", []),
   ("beacon_backendInsecure_ExecuteTx", []),
   ("keymanager_secrets_ExecuteTx", []),
   ("keymanager_churp_ExecuteTx", []),
-  ("staking_ExecuteMessage",
-    ["messages.go:changeParameters:fmt.Errorf(staking: commission schedule for account '%s' in)"]),
+  ("staking_ExecuteMessage", ["messages.go:changeParameters:fmt.Errorf(staking: commission schedule for account '%s' in) @ updated"]),
   ("registry_ExecuteMessage", []),
-  ("governance_ExecuteMessage",
-    ["governance.go:ExecuteMessage:app.castVote(ctx)",
-     "transactions.go:submitProposal:err",
-     "transactions.go:submitProposal:governance.ErrInvalidArgument",
+  ("governance_ExecuteMessage", ["governance.go:ExecuteMessage:app.castVote(ctx) @ case m.CastVote != nil",
+     "transactions.go:submitProposal:err @ case proposalContent.ChangeParameters != nil",
+     "transactions.go:submitProposal:governance.ErrInvalidArgument @ res == nil",
      "transactions.go:submitProposal:fmt.Errorf(governance: failed to get next proposal identifi)"]),
-  ("roothash_ExecuteMessage",
-    ["roothash.go:ExecuteMessage:app.onNewRuntime(ctx)",
+  ("roothash_ExecuteMessage", ["roothash.go:ExecuteMessage:app.onNewRuntime(ctx) @ case registryApi.MessageNewRuntimeRegistered",
      "liveness.go:processLivenessStatistics:fmt.Errorf(failed to retrieve status for node %s: %w)",
      "slashing.go:onRuntimeLivenessFailure:fmt.Errorf(failed to fetch node %s: %w)",
      "messages.go:doBeforeSchedule:fmt.Errorf(failed to fetch runtime state: %w)"]),
-  ("vault_ExecuteMessage", [])]
+  ("vault_ExecuteMessage", []),
+  ("scheduler_ExecuteMessage", [])
+]
 
 def expectedOf (name : String) : Option (List String) :=
   (expected.find? (fun p => p.1 == name)).map (·.2)
@@ -244,6 +237,45 @@ theorem read_methods_as_expected : Generated.HandlerFacts.readMethods =
    "HasEntityNodes", "HasEntityRuntimes", "IncomingMessageQueueMeta", "MasterSecret", "NextProposalIdentifier", "Node",
    "NodeStatus", "Nodes", "PendingAction", "PendingMockEpoch", "PendingUpgradeProposal", "PendingUpgrades", "Proposal",
    "Runtime", "RuntimeState", "Runtimes", "Status", "SuspendedRuntime", "TotalSupply", "VRFState", "Vault"] := by decide
+
+/-- Which inter-application message kinds may have a persistent effect (write or further publication)
+in each subscriber, per regenerated `switch msg.Kind` case with boolean-literal arguments of inlined
+callees propagated (`changeParameters(ctx, data, apply)`).  The convention the handlers rely on:
+**`MessageValidateParameterChanges` is read-only in every application** (it is published from inside a
+governance `submitProposal` transaction that may still fail), state-sync / runtime-updated / resumed
+notifications are read-only in roothash. -/
+def expectedKinds : List (String × String × Bool) := [
+  ("staking_ExecuteMessage", "RuntimeMessageStaking", true),
+  ("staking_ExecuteMessage", "MessageValidateParameterChanges", false),
+  ("staking_ExecuteMessage", "MessageChangeParameters", true),
+  ("registry_ExecuteMessage", "RuntimeMessageRegistry", true),
+  ("registry_ExecuteMessage", "MessageValidateParameterChanges", false),
+  ("registry_ExecuteMessage", "MessageChangeParameters", true),
+  ("governance_ExecuteMessage", "RuntimeMessageGovernance", true),
+  ("governance_ExecuteMessage", "MessageStateSyncCompleted", false),
+  ("governance_ExecuteMessage", "MessageValidateParameterChanges", false),
+  ("governance_ExecuteMessage", "MessageChangeParameters", true),
+  ("roothash_ExecuteMessage", "MessageNewRuntimeRegistered", true),
+  ("roothash_ExecuteMessage", "MessageRuntimeUpdated", false),
+  ("roothash_ExecuteMessage", "MessageRuntimeResumed", false),
+  ("roothash_ExecuteMessage", "RuntimeMessageNoop", false),
+  ("roothash_ExecuteMessage", "MessageBeforeSchedule", true),
+  ("roothash_ExecuteMessage", "MessageValidateParameterChanges", false),
+  ("roothash_ExecuteMessage", "MessageChangeParameters", true),
+  ("vault_ExecuteMessage", "MessageAccountHook", true),
+  ("vault_ExecuteMessage", "MessageValidateParameterChanges", false),
+  ("vault_ExecuteMessage", "MessageChangeParameters", true),
+  ("scheduler_ExecuteMessage", "MessageValidateParameterChanges", false),
+  ("scheduler_ExecuteMessage", "MessageChangeParameters", true)]
+
+theorem message_kinds_as_expected :
+    Generated.HandlerFacts.msgKinds.map (fun p => (p.1, p.2.1, p.2.2.hasEffect)) = expectedKinds := by
+  decide +kernel
+
+/-- No subscriber of the validation message can write. -/
+theorem validate_messages_read_only :
+    (expectedKinds.filter (fun p => p.2.1 == "MessageValidateParameterChanges")).all (fun p => !p.2.2) = true := by
+  decide
 
 /-! ### the analysis itself on hand-made flows (sanity of `flagged`) -/
 
